@@ -1210,7 +1210,9 @@ class PSFPhotometry(ModelImageMixin):
                 y_bounds = np.array([i for i in y_bounds if i is not None])
                 dx = x_bounds - row[xcolname]
                 dy = y_bounds - row[ycolname]
-                if np.any(dx == 0) or np.any(dy == 0):
+                # bounded fitters keep parameters strictly inside the
+                # bounds, so compare to within rounding
+                if np.any(np.isclose(dx, 0)) or np.any(np.isclose(dy, 0)):
                     flags[index] += 32
 
         return flags
